@@ -468,15 +468,17 @@ func runOne(c *c12Case, variant string) map[string]any {
 			run["builderr"] = "non-BuildError: " + buildErr.Error()
 		}
 		run["out"], run["outcome"], run["val"], run["chain"], run["after"], run["ends"] = []int{}, "nobuild", 0, []any{}, 0, 0
+		run["dclass"] = ""
 		return run
 	}
 	run["built"] = true
-	outcome, val, chain, detail := "ok", 0, []any{}, ""
+	outcome, val, chain, detail, dclass := "ok", 0, []any{}, "", ""
 	func() {
 		defer func() {
 			if r := recover(); r != nil {
 				outcome, val = "hostpanic", -1
 				detail = safeString(r)
+				dclass = fmt.Sprintf("%T", r) // the Go type of the value the host recovered
 				if fv, ok := r.(*fatalVal); ok {
 					for i, x := range rec.fatals {
 						if x == fv {
@@ -512,6 +514,7 @@ func runOne(c *c12Case, variant string) map[string]any {
 		after = len(ev) - rec.endAt
 	}
 	run["out"], run["outcome"], run["val"], run["chain"], run["after"], run["ends"] = ev, outcome, val, chain, after, rec.ends
+	run["dclass"] = dclass
 	if detail != "" {
 		run["detail"] = detail
 	}
